@@ -24,6 +24,10 @@ class PathAbort(Exception):
     """Path ended deliberately (cut point)."""
 
 
+class OtherShard(Exception):
+    """The path belongs to another shard of a harness that is explored by several processes."""
+
+
 class Config:
     def __init__(self, **kw):
         self.branch_timeout_ms = kw.get("branch_timeout_ms", 4000)
@@ -38,6 +42,9 @@ class Config:
         # budget of the full (sequence-aware) solver for branch feasibility / consistency checks; an
         # "unknown" there only means that a possibly infeasible path is explored (sound, slower)
         self.feas_timeout_ms = kw.get("feas_timeout_ms", 1500)
+        # sharded exploration of one harness: paths are partitioned by their first `shard_depth` decisions
+        self.shard = kw.get("shard")            # None | (k, n)
+        self.shard_depth = kw.get("shard_depth", 48)
 
 
 class Obl:
@@ -206,6 +213,7 @@ class PathCtx:
             self.decisions.append(d)
             self.forced.append(False)
             self.assume(term if d else z3.Not(term))
+            self._shard_gate()
             return d
         nterm = z3.Not(term)
         # cheap abstraction first, then the full solver asked only for infeasibility
@@ -229,17 +237,29 @@ class PathCtx:
             self.decisions.append(False)
             self.forced.append(True)
             self.assume(nterm)
+            self._shard_gate()
             return False
         if not can_f:
             self.decisions.append(True)
             self.forced.append(True)
             self.assume(term)
+            self._shard_gate()
             return True
         self.alternatives.append(self.decisions + [False])
         self.decisions.append(True)
         self.forced.append(False)
         self.assume(term)
+        self._shard_gate()
         return True
+
+    def _shard_gate(self):
+        sh = self.cfg.shard
+        if sh is None or len(self.decisions) != self.cfg.shard_depth:
+            return
+        k, n = sh
+        bucket = sum((1 << i) for i, d in enumerate(self.decisions) if d) % n
+        if bucket != k:
+            raise OtherShard()
 
     def enumerate_values(self, term, limit=24):
         """All values of an Int term feasible under the pc (None if more than `limit`)."""
@@ -333,12 +353,18 @@ def explore(run_path, cfg: Config):
             res.end = "infeasible"
         except PathAbort:
             res.end = "ok"
+        except OtherShard:
+            res.end = "other-shard"
         except Unsupported as e:
             res.end = f"unsupported:{e}"
         except RecursionError:
             res.end = "unsupported:recursion depth"
         res.decisions = list(ctx.decisions)
         res.obls = ctx.obls
+        if cfg.shard is not None and res.end != "other-shard" and len(ctx.decisions) < cfg.shard_depth and cfg.shard[0] != 0:
+            res.end = "other-shard"      # short paths belong to shard 0
+        if res.end == "other-shard":
+            res.obls = []
         res.solver_secs = ctx.solver_secs
         res.solver_calls = ctx.solver_calls
         res.trusted = ctx.trusted
